@@ -1686,6 +1686,10 @@ class Multiply(Array):
 
     def _intbounds_impl(self):
         func1, func2 = self.funcs
+        if isinstance(func1, Sign) and func1.func == func2 or isinstance(func2, Sign) and func2.func == func1:
+            # absolute value, see `abs`
+            lower, upper = (func2 if isinstance(func1, Sign) else func1)._intbounds
+            return max(0, lower, -upper), max(-lower, upper)
         extrema = [b1 and b2 and b1 * b2 for b1 in func1._intbounds for b2 in func2._intbounds]
         return min(extrema), max(extrema)
 
